@@ -1090,7 +1090,7 @@ func (c *FnCtx) chanSend(ch, x ssa.Value, pos token.Pos, ins ssa.Instruction) {
 	val := c.v(x)
 	if n := chanVarName(ch); n != "" && ins != nil {
 		// "before send:<channel variable> assert ..." / "after send:<channel variable> set ..."
-		extra := map[string]TV{"p0": {T: val, Ty: x.Type()}}
+		extra := map[string]TV{"p0": {T: val, Ty: x.Type()}, "$guarded": {T: "false", Ty: tBool}}
 		c.pointHints("send:"+n, ins, pos, extra)
 		defer c.pointSets("send:"+n, ins, extra)
 	}
@@ -1139,6 +1139,7 @@ func (c *FnCtx) chanRecv(x *ssa.UnOp) {
 		if x.CommaOk {
 			extra["ok"] = TV{T: c.tuples[x][1], Ty: tBool}
 		}
+		c.pointHints("recv:"+n, x, x.Pos(), map[string]TV{"$guarded": {T: "false", Ty: tBool}})
 		defer c.pointSets("recv:"+n, x, extra)
 	}
 	spec, o := c.chanSpec(x.X, "recv")
@@ -1178,13 +1179,24 @@ func (c *FnCtx) selectStmt(x *ssa.Select) {
 	// local channels (plain variables): "before send:<var> assert" holds before the select whatever case
 	// is chosen (the value to be sent is already computed); "after send:/recv:<var> set" takes effect
 	// only if that case is the chosen one
+	// guarded(): this channel operation cannot block for ever on its own - the select has a default
+	// case, or an arm that receives from a cancellation channel (the result of a Done() call)
+	guarded := "false"
+	if !x.Blocking {
+		guarded = "true"
+	}
+	for _, st := range x.States {
+		if st.Dir == types.RecvOnly && chanVarName(st.Chan) == "Done()" {
+			guarded = "true"
+		}
+	}
 	kk := 2
 	for i, st := range x.States {
 		n := chanVarName(st.Chan)
 		chosen := eq(idx, num(int64(i)))
 		if st.Dir == types.SendOnly {
 			if n != "" {
-				extra := map[string]TV{"p0": {T: c.v(st.Send), Ty: st.Send.Type()}}
+				extra := map[string]TV{"p0": {T: c.v(st.Send), Ty: st.Send.Type()}, "$guarded": {T: guarded, Ty: tBool}}
 				c.pointHints("send:"+n, x, st.Pos, extra)
 				c.pointSetsCond("send:"+n, x, extra, chosen)
 			}
@@ -1193,6 +1205,8 @@ func (c *FnCtx) selectStmt(x *ssa.Select) {
 		val, vt := ts[kk], tup.At(kk).Type()
 		kk++
 		if n != "" {
+			// ("before recv:<var> assert" may only speak about the state before the select and guarded())
+			c.pointHints("recv:"+n, x, st.Pos, map[string]TV{"$guarded": {T: guarded, Ty: tBool}})
 			extra := map[string]TV{"r0": {T: val, Ty: vt}, "ok": {T: ts[1], Ty: tBool}}
 			c.pointSetsCond("recv:"+n, x, extra, chosen)
 		}
